@@ -12,9 +12,9 @@ import Blots.Gen.Builtins
   * `Json` is a JSON *document*: object members in document order, duplicate keys
     possible.  Numbers are the double `serde_json::Number::as_f64` gives (an integer
     literal inside the i64/u64 range is converted exactly-rounded by `as f64`, everything
-    else by serde_json's float parser) - the text layer is NOT modelled here; it is the
-    assumption `TextRoundTrip` validated by the harness (and currently violated for
-    numbers, see `known_findings.json`, key `c06.json-number-roundtrip`).
+    else by serde_json's float parser, correctly rounded since the crate is built with
+    `float_roundtrip`).  The text layer is modelled in `Model/JsonText.lean`
+    (`jsonWrite` / `jsonRead`).
   * `Json.norm` is what `serde_json::Value` holds after parsing a document: the crate is
     built WITHOUT `preserve_order`, so `serde_json::Map` is a `BTreeMap<String, Value>`:
     members sorted by key (byte order of the UTF-8 = order of the scalar values), a
